@@ -335,7 +335,7 @@ prop("C09",
           "and nothing else offered; every byte read on a reliable instance is the next byte of that instance's stream (foreign "
           "bytes classified: predecessor-same-id / other-tube / unknown); every unreliable message equals one written message of "
           "that instance. "
-          "Further families: id exhaustion, accept backlog, and late data frames of a long-lived predecessor (frame numbers 1100-1800, far beyond a fresh tube's 1000-frame receive window) delivered to the successor that reused the id, whose own stream of more than that many frames must arrive unaltered. "
+          "Further families: id exhaustion, accept backlog, single unreliable messages of 32768..131077 bytes (around the 16-bit frame length and over a network that refuses more than transport.MaxPlaintextSize, as a transport connection does: whatever is read is a written message, whole), and late data frames of a long-lived predecessor (frame numbers 1100-1800, far beyond a fresh tube's 1000-frame receive window) delivered to the successor that reused the id, whose own stream of more than that many frames must arrive unaltered. "
           "Non-trivial = a tube instance that was opened, matched with the peer's Accept and carried checked data (unique per case and instance).",
      level_text="Exploration of concurrent open/transfer/close/reopen histories with per-instance keyed data and an adversary that "
                 "replays frames of closed instances, in virtual time with the race detector.",
